@@ -43,6 +43,9 @@ type bufAPI interface {
 }
 
 var errInjectedReader = errors.New("injected reader error")
+
+// an error that wraps io.EOF is an error like any other: only the bare io.EOF value ends ReadFrom silently
+var errWrappedEOF = fmt.Errorf("source truncated: %w", io.EOF)
 var errInjectedWriter = errors.New("injected writer error")
 
 type scriptReader struct {
@@ -73,6 +76,8 @@ func (r *scriptReader) Read(p []byte) (int, error) {
 		return n, io.EOF
 	case 'o':
 		return n, errInjectedReader
+	case 'w':
+		return n, errWrappedEOF
 	case 'g':
 		return -1, nil
 	}
@@ -97,7 +102,7 @@ func errName(err error) string {
 		return ""
 	case err == io.EOF:
 		return "EOF"
-	case err == errInjectedReader:
+	case err == errInjectedReader, err == errWrappedEOF:
 		return "reader-error"
 	case err == errInjectedWriter:
 		return "writer-error"
@@ -147,7 +152,11 @@ func (o c19Op) proto() string {
 	case "readfrom":
 		var parts []string
 		for _, s := range o.steps {
-			parts = append(parts, hx(s.chunk)+":"+string(s.kind))
+			kind := s.kind
+			if kind == 'w' {
+				kind = 'o'
+			}
+			parts = append(parts, hx(s.chunk)+":"+string(kind))
 		}
 		return "readfrom " + strings.Join(parts, " ")
 	case "writeto":
@@ -335,7 +344,7 @@ func runC19(r *run) {
 				for j := g.intn(4); j > 0; j-- {
 					o.steps = append(o.steps, readStep{randBytes(g.intn(513)), 'n'})
 				}
-				last := readStep{randBytes(g.intn(300)), "eeog"[g.intn(4)]}
+				last := readStep{randBytes(g.intn(300)), "eeogw"[g.intn(5)]}
 				if last.kind == 'g' {
 					last.chunk = nil
 				}
